@@ -27,6 +27,12 @@ func powerVectors(n int) [][]int64 {
 // genesisDump: base + the real SyncGenesisHeader (operator signed) of a header at `height` whose next-validator hash
 // commits to `trust` (hash format of block version `ver`).
 func (c *ctx) genesisDump(f *family, height int64, ver uint64, trust *vset, appHash []byte) polyenv.Dump {
+	d, _ := c.genesisDumpSpec(f, height, ver, trust, appHash)
+	return d
+}
+
+// genesisDumpSpec also returns the specification of the header now tracked.
+func (c *ctx) genesisDumpSpec(f *family, height int64, ver uint64, trust *vset, appHash []byte) (polyenv.Dump, hdrSpec) {
 	one := &vset{id: f.name + "/genesis-signer", keys: []tmKey{f.key(60)}, powers: []int64{1}}
 	g := hdrSpec{ChainID: tmChainID, Ver: ver, Height: height, Vals: one, HdrVals: one, Next: trust, Sigs: "c", AppHash: appHash}
 	raw, _ := f.raw(g)
@@ -42,7 +48,7 @@ func (c *ctx) genesisDump(f *family, height int64, ver uint64, trust *vset, appH
 		}
 		out = s.Dump()
 	})
-	return out
+	return out, g
 }
 
 // okexEthKeyProbe: one submission of a header carrying an eth_secp256k1 validator key (counted, not a C30 matter).
@@ -116,7 +122,7 @@ func (c *ctx) partA(fams []*family) map[string]any {
 					if res.Panic != nil {
 						c.notePanic(f.name, res.Panic)
 					}
-					ok, why := f.refOK(sp, before, true)
+					ok, why := f.refOK(sp, hh, before, true)
 					if ok {
 						r.Class("A:ref-ok")
 					} else {
